@@ -162,6 +162,25 @@ CHECKS = {
              "grids against ground truth, all representation pairs through MeshFieldsComparator, and the mesh classes against the model.",
         note=TB + "meshio is an oracle for legacy .vtk / .xdmf files; `structured_as_explicit` via mesh_equal is tied by the comparator runs, not a theorem.",
         technique="Coq proof of the structured-grid model + model/implementation correspondence", ref="7 (C07)"),
+    "C05": dict(
+        text="Theorems (unbounded lengths, block sizes and block counts): base64 round trip incl. CPython's lenient decoder as a "
+             "state machine and decoding an encoded string followed by further data, encoded-length arithmetic, integer/byte "
+             "round trips (LE/BE, two's complement), uncompressed arrays in both header placements, compressed arrays for any "
+             "block size (abstract compressor with a round-trip hypothesis), reading at an appended offset, every array of the "
+             "format-side encoder over the whole configuration matrix, regrouping of cells and cell data per cell type. Tied to "
+             "read_field_data on files written by an independent encoder in every combination format x compressor x block size "
+             "x header type x byte order, to Base64Encoder / compressors on array-level byte strings, and to numpy decoding.",
+        note=TB + "expat, ascii number parsing and the real zlib/lz4/lzma (per-file lookup tables) are oracles. Built by a helper agent following DESIGN.md section 7 (C05).",
+        technique="Coq proof of the VTK XML container model + model/implementation correspondence over the configuration matrix", ref="7 (C05)"),
+    "C13": dict(
+        text="Theorems: values/rows round trip through the writer's encoding and the reader model for all ten types, header = "
+             "payload length, row-major reshape/flatten, points padded to three coordinates, cells and cell data per type, CSV "
+             "structure round trip (split o join) for cells free of delimiter/newline. Tied to write() -> read_field_data for "
+             "plain, sorted, stripped, extended, merged, diffed and re-read (LE/BE) mesh field data over 12 cell types and 10 "
+             "dtypes, to the written DataArray text (both directions), and to tables with float/int/str columns. Open findings "
+             "F-C13c/e/f (numpy genfromtxt typing/stripping) are reported as KNOWN-FINDING.",
+        note=TB + "CSV value parsing and column typing are numpy's (oracle); empty meshes are outside the statement. Built by a helper agent following DESIGN.md section 7 (C13).",
+        technique="Coq proof of the writer/reader codec model + model/implementation correspondence on write-read round trips", ref="7 (C13)"),
 }
 
 ALL = [f"C{i:02d}" for i in range(1, 21)]
